@@ -209,7 +209,41 @@ def group_text(g):
     return f"({eff} | {fac})"
 
 
+def op_expression(rng, atom_texts):
+    """Operator-written right-hand side over the given atoms (each used once): + : * / and
+    (sum)**2.  The expansion is obtained from the reference algebra, never from formulae."""
+    items = list(atom_texts)
+    rng.shuffle(items)
+    nodes = [(a, True) for a in items]  # (text, is_atomic)
+    while len(nodes) > 1:
+        i = rng.randrange(len(nodes) - 1)
+        (l, la), (r, ra) = nodes[i], nodes[i + 1]
+        op = rng.choice(["+", "+", ":", "*", "*", "/"])
+        lt = l if la else f"({l})"
+        rt = r if ra else f"({r})"
+        nodes[i : i + 2] = [(f"{lt} {op} {rt}", False)]
+    text = nodes[0][0]
+    if len(items) >= 2 and rng.random() < 0.25:
+        text = "(" + " + ".join(items) + ")**2"
+    return text
+
+
+def expand_rhs(text):
+    """[[component names]] of the common terms of `y ~ 0 + text` by the reference algebra."""
+    from fmon.ref import algebra as A
+
+    _resp, common, _group = A.expand("y ~ 0 + (" + text + ")", "ordered")
+    return [list(t[1]) for t in common if t[0] == "t"]
+
+
 def formula_text(case):
+    if case.get("rhs_ops"):
+        parts = [case["rhs_ops"]] + [group_text(g) for g in case.get("group", [])]
+        rhs = " + ".join(parts)
+        if not case.get("intercept", True):
+            rhs = "0 + " + rhs
+        lhs = case.get("resp")
+        return (lhs + " ~ " + rhs) if lhs else rhs
     parts = [term_text(t) for t in case["terms"]] + [group_text(g) for g in case.get("group", [])]
     rhs = " + ".join(parts) if parts else "1"
     if not case.get("intercept", True):
@@ -261,7 +295,7 @@ PROFILES = {
 
 
 def random_case(rng, profile="plain", hostile=False, group_p=0.5, max_terms=4, min_rows=1, max_rows=40,
-                with_refs=False):
+                with_refs=False, ops_p=0.35):
     """rng: random.Random.  Returns a case dict (JSON-able)."""
     P = PROFILES[profile]
     fr = {"seed": rng.randrange(2 ** 31), "hostile": hostile, "min_rows": min_rows, "max_rows": max_rows}
@@ -318,6 +352,22 @@ def random_case(rng, profile="plain", hostile=False, group_p=0.5, max_terms=4, m
                 group.append(g)
     case = {"frame": fr, "resp": rng.choice(["y", "y", "y", None]), "intercept": rng.random() < 0.75,
             "terms": terms, "group": group, "profile": profile}
+    if ops_p and rng.random() < ops_p:
+        # operator-written common part: atoms over distinct variables, expansion by the reference algebra
+        chosen, used_vars = [], set()
+        for a in rng.sample(P["num"] + cats, k=min(len(P["num"] + cats), 6)):
+            at = atom(a, meta)
+            if any(v in used_vars for v in at.vars):
+                continue
+            used_vars.update(at.vars)
+            chosen.append(a)
+            if len(chosen) == rng.choice([2, 2, 3, 3, 4]):
+                break
+        if len(chosen) >= 2:
+            text = op_expression(rng, chosen)
+            by_name = {_name(a): a for a in chosen}
+            case["rhs_ops"] = text
+            case["terms"] = [[by_name[nm] for nm in t] for t in expand_rhs(text)]
     if not terms and not group and not case["intercept"]:
         case["intercept"] = True
     return case
